@@ -245,6 +245,46 @@ def main():
         want = t.repeat(*a) if kind == "repeat" else t.repeat_interleave(a[0], dim=a[1])
         run.corr("spec:" + kind, {"shape": list(shape), "args": list(a)}, ["ok", L.canon(want)], parse_sx(ans))
 
+    # ---- 3c. torch.stack / torch.cat of 1-4 tensordicts: model vs implementation (values, batch, names, error class)
+    import torch as _torch
+    sc_cases, sc_lines = [], []
+    for i in range(400 if quick else 5000):
+        kind = rng.choice(["stack", "cat"])
+        rank = rng.choice([0, 1, 2, 2, 3]) if kind == "stack" else rng.choice([1, 2, 2, 3])
+        bs = tuple(rng.choice(L.DIMS if rng.random() < 0.35 else (1, 2, 3)) for _ in range(rank))
+        spec = L.gen_tree(rng, bs, named=rng.random() < 0.45)
+        k = rng.choice([1, 2, 2, 3, 4])
+        wild = rng.random() < 0.25
+        n = rank
+        if kind == "stack":
+            d = rng.randint(-n - 3, n + 2) if wild else rng.randint(-n - 1, n)
+            specs = [spec] * k
+        else:
+            d = rng.randint(-n - 2, n + 1) if wild else rng.randrange(-n, n)
+            dd = (d + n if d < 0 else d) % max(n, 1)
+            specs = [L.resize_dim(spec, dd, rng.choice([0, 1, 2, 3])) for _ in range(k)]
+        if wild and k > 1:
+            r = rng.random()
+            if r < 0.3 and specs[-1][3]:
+                specs = specs[:-1] + [L.drop_key(specs[-1], specs[-1][3][0][0])]        # mismatching key sets
+            elif r < 0.6 and n:
+                specs = specs[:-1] + [L.resize_dim(specs[-1], rng.randrange(n), 5)]   # mismatching sizes
+        sc_cases.append((kind, specs, d))
+        sc_lines.append(f"(c02.{kind} {d} " + " ".join(L.spec_sx_off(sp, 100000 * j) for j, sp in enumerate(specs)) + ")")
+    for (kind, specs, d), ans in zip(sc_cases, ask_chunked(drv, sc_lines)):
+        tds = [L.build_offset(sp, 100000 * j) for j, sp in enumerate(specs)]
+        try:
+            with L.time_limit(30.0):
+                r = (_torch.stack if kind == "stack" else _torch.cat)(tds, d)
+            impl = ["ok", L.canon_sorted(r)]
+        except Exception as e:  # noqa: BLE001
+            impl = ["err", L.err_class(e)]
+        m = parse_sx(ans)
+        model = ["ok", L.sort_parsed(m[1])] if m[0] == "ok" else m
+        run.case((kind, d, tuple(L.spec_sx(sp) for sp in specs)))
+        run.count("stackcat.outcome", impl[0] if impl[0] == "ok" else "err:" + impl[1])
+        run.corr("td:" + kind, {"kind": kind, "dim": d, "tds": [L.spec_sx(sp) for sp in specs]}, impl, model)
+
     # ---- 4. extended domain (oracle only): repeat / repeat_interleave / gather / masked_select / stack / cat (+ out=)
     for i in range(700 if quick else 8000):
         kind, specs, args = L.gen_ext(rng)
